@@ -40,5 +40,6 @@ Definition dispatch (f : Z) (x : sx) : sx :=
   | 1300 => x_pol_unitary x | 1301 => x_pol_convert x | 1302 => x_pol_probs x | 1303 => x_pol_spec x | 1304 => x_labels x
   | 600 => x_get_probs x | 601 => x_one_photon x | 602 => x_prob_dist x | 603 => x_generate x | 604 => x_prob_table x
   | 605 => x_from_noise x | 606 => x_generate_filtered x | 607 => x_event_law x
+  | 1003 => ConnectorX.x_conn_run_old x
   | _ => L []
   end%Z.
